@@ -592,7 +592,7 @@ CLAIMED["C02"] = dict(
               "appropriate place / foster parenting, element / character / comment insertion, reconstruct the active "
               "formatting elements, Noah's ark, the adoption agency algorithm in full, clear-the-stack, close p / cell) + model/code correspondence on the tb engine + differential of the real code against the patched "
               "html5lib reference + option relations and a prefix oracle on the real code",
-    text="PARTIAL. Proved (kernel-checked, for all inputs; 76 theorems): (1) every table of the tree builder as "
+    text="Proved (kernel-checked, for all inputs; 114 theorems): (1) every table of the tree builder as "
          "regenerated from the source equals the standard's — special category, the scope sets, implied end tags, "
          "formatting elements, table contexts, foster-parenting targets, integration points, the 55+3+1+2+2 quirks "
          "identifiers, SVG tag-name / SVG attribute / MathML attribute / foreign attribute adjust tables incl. prefixes, "
@@ -610,8 +610,22 @@ CLAIMED["C02"] = dict(
          "formatting-element lookup, furthest block, inner loop with the 3-iteration rule, bookmark, reparenting, stack and "
          "list updates, fallback to 'any other end tag'), any-other-end-tag, generate implied end tags, clear the stack "
          "back to a table / table body / table row context, pop-until, close a p element, close the cell, stop parsing. "
+         "THE INSERTION MODES THEMSELVES (Props/C02Modes.lean, ~22 000 lines, against Spec/TreeModes*.lean - an independent "
+         "literal transcription of 13.2.6.4 / 13.2.6.5 / the dispatcher written by an agent that was not allowed to see "
+         "html5ever or the model): C02_mode_<name> for all 21 modes, C02_foreign, C02_dispatcher, and the headlines "
+         "C02_model_eq_spec_modes (documents) / _fragment (any context element): for every token list that keeps the "
+         "tokenizer protocol the model's parse and Spec.TreeModes.parseDocument / parseFragment (2025 edition) make the same "
+         "DOM calls in the same order (text compared per character, parse errors left out), reach the same quirks mode and "
+         "final insertion mode and give the same answers to the tokenizer; the only proviso on the spec side is the "
+         "standard's own Assert in 'in cell' (where the transcription throws, html5ever ignores the token). THE PROOF FOUND "
+         "FOUR DEFECTS of html5ever (it could first be completed only against a specification carrying four deviations; each "
+         "was confirmed on the real code and repaired, F38-F41: DOCTYPE in 'in table text', characters under a template "
+         "current node in table modes, unmatched end tag reaching the root of a foreign-context fragment, <input> in a "
+         "select-context fragment); the theorem is now against the unmodified specification. "
          "NOT proved: C02_table_body_end_ok_partial (parse-error-only table lacks rb/rtc), handle_misnested_a_tags, parse "
-         "errors, and the per-insertion-mode rule arms (rules.rs) as a whole — no complete independent Lean transcription of "
+         "errors, the self-closing acknowledgement and declarative shadow roots, and - as ONE theorem - the composition "
+         "tokenizer = spec (C01) + tree builder = spec (here) through the joint driver (C03Joint's replay theorem links "
+         "them); the per-insertion-mode rule arms (rules.rs) compared with an INDEPENDENT implementation — no complete independent Lean transcription of "
          "section 13.2.6 exists here. That part is carried by (a) the differential against the patched html5lib 1.1 "
          "reference on documents and HTML-context fragments, scripting on/off (directed token families rendered as text, "
          "dispatcher cover, themed tag soup, doctype identifiers in mixed case / truncated / extended; thorough tier: "
